@@ -126,6 +126,8 @@ class Ctx:
         }
         self.failure: Optional[dict] = None  # smallest failing case so far
         self._calls_after_failure = 0
+        self._t_first_failure = None  # wall-clock cap on SHRINKING only (never a verdict): see _shrink_spent()
+        self.shrink_wall_s = 90 if tier == "quick" else 600
         self.case_timeout = CASE_TIMEOUT_S  # CPU seconds per oracle call; a check may lower it (mod.CASE_TIMEOUT_S)
         self.hang_is_violation = False  # see guard(): set from mod.HANG_IS_VIOLATION
         self.shrink_budget = 400 if tier == "quick" else 1500
@@ -206,7 +208,7 @@ class Ctx:
         else:
             if self.failure is not None:
                 self._calls_after_failure += 1
-                if self._calls_after_failure > self.shrink_budget:
+                if self._calls_after_failure > self.shrink_budget or self._shrink_spent():
                     raise StopShrink()
 
     def timed(self, fn, *args):
@@ -222,6 +224,12 @@ class Ctx:
             signal.setitimer(signal.ITIMER_PROF, 0)
             _reset_tracebacklimit()
 
+    def _shrink_spent(self) -> bool:
+        if self._t_first_failure is None:
+            self._t_first_failure = time.time()
+            return False
+        return time.time() - self._t_first_failure > self.shrink_wall_s
+
     def _record_failure(self, v: Violation, case: Any):
         c = v.case if v.case is not None else case
         size = len(jdump(c))
@@ -234,7 +242,7 @@ class Ctx:
                 "extra": v.extra,
             }
         self._calls_after_failure += 1
-        if self._calls_after_failure > self.shrink_budget:
+        if self._calls_after_failure > self.shrink_budget or self._shrink_spent():
             raise StopShrink()
 
     def run_hypothesis(self, strategy, oracle: Callable[[Any], None], max_examples: int, salt: int = 0):
